@@ -34,6 +34,22 @@ order).
 
 Ghost history per request: every attempt (`Att`), every requested sleep, every answer of the
 budget. Histories are kept newest first.
+
+Interval functions whose answer is not a function of the retry number alone — `ExponentialRandomBackoff`
+(jitter: a fresh random sample per call) — or is float-computed (`ExponentialBackoff` objects with any
+multiplier / maximum) are *observed choices* (DESIGN §3.2): the harness hands the value the real object
+returned to the poll that asked for it (`poll c @d=<ns> …`, in the order of the calls), the model checks it
+against the policy's envelope `[backoff k, backoff k + spread k]` (µs; `choice-not-allowed` otherwise) and
+sleeps the value clamped into the envelope. So `Cfg.backoff k` is the LEAST delay the policy may return for
+retry `k` ("the configured back-off": the exact value for the deterministic policies, for which `spread` is
+0), and every theorem about waiting holds for every answer inside the envelope.
+
+Readiness between attempts. After a back-off the loop asks the service instance it holds for readiness
+(`poll_ready`) before it calls it again; an `Err` there ends the request with that error, without a further
+inner call (phase `unready`); `Pending` delays the retry: an instance that is still recovering from the call it served
+(`Cfg.recov` ms after the start of the attempt) keeps the request waiting, the retry starts at the first poll at which
+both the back-off has elapsed and the instance has recovered (`recovered`). `State.rdy` is the script of the inner service's answers to these polls
+('r' ready, 'p' pending — polled again at once —, 'e' error; exhausted: ready), shared by all requests.
 -/
 namespace TR.Retry
 
@@ -72,10 +88,13 @@ structure Cfg where
   max     : Nat := 3                       -- `max_attempts` (fixed), default of a request without `ma=`
   dyn     : Bool := false                  -- `max_attempts_fn`: the request carries its own value
   pred    : Nat → Bool := fun _ => true    -- retry predicate over error kinds (none configured = all)
-  backoff : Nat → Nat := fun _ => 0        -- `IntervalFunction::next_interval`, in µs
+  backoff : Nat → Nat := fun _ => 0        -- `IntervalFunction::next_interval`, in µs: the least value it may return
+  spread  : Nat → Nat := fun _ => 0        -- width of the envelope (µs): the answer lies in `[backoff k, backoff k + spread k]`
   budget  : Option Budget := none
   b0      : BState := ⟨0, 0⟩               -- initial budget state
   aimd    : Bool := false                  -- the budget is an `AimdBudget` (only then `probe limit` has an answer)
+  rdy     : List Char := []                -- the inner service's answers to the readiness polls between attempts ('r' / 'p' / 'e')
+  recov   : Nat := 0                       -- recovery time (ms) of a service instance after a call: pending for that long
 
 /-! ## the builder
 
@@ -90,6 +109,7 @@ inductive Setter
   | maxA (n : Nat)                         -- `.max_attempts(n)`
   | maxFn (dflt : Nat)                     -- `.max_attempts_fn(f)`; `dflt`: what `f` answers for a request without `ma=`
   | backoff (f : Nat → Nat)                -- `.fixed_backoff(d)` / `.exponential_backoff(d)` / `.backoff(i)`, in µs
+  | interval (lo sp : Nat → Nat)           -- `.backoff(i)` with `i` float-computed or jittered: envelope `[lo k, lo k + sp k]`, µs
   | pred (p : Nat → Bool)                  -- `.retry_on(p)`
   | budget (bu : Budget) (b0 : BState) (aimd : Bool)   -- `.budget(b)`, `b` in state `b0`
 
@@ -99,7 +119,8 @@ def defaultCfg : Cfg :=
 def applySetter (cfg : Cfg) : Setter → Cfg
   | .maxA n => { cfg with max := n, dyn := false }
   | .maxFn d => { cfg with max := d, dyn := true }
-  | .backoff f => { cfg with backoff := f }
+  | .backoff f => { cfg with backoff := f, spread := fun _ => 0 }
+  | .interval lo sp => { cfg with backoff := lo, spread := sp }
   | .pred p => { cfg with pred := p }
   | .budget bu b0 a => { cfg with budget := some bu, b0 := b0, aimd := a }
 
@@ -111,6 +132,7 @@ inductive Phase
   | calling (k due : Nat) (o : Out)          -- inner call with serial `k` exists, ready at `due`
   | sleeping (wake : Nat)                   -- between two attempts
   | done
+  | unready                                  -- the inner service failed readiness before a retry: finished with that error
   | dropped
 deriving DecidableEq, Repr
 
@@ -121,6 +143,33 @@ def ceilMs (us : Nat) : Nat := (us + 999) / 1000
 /-- `Duration::MAX` (`u64::MAX` s + 999 999 999 ns), rounded up to whole µs -/
 def durMaxUs : Nat := 2 ^ 64 * 1000000
 
+/-- `Duration::MAX` in ns -/
+def durMaxNs : Nat := 18446744073709551615999999999
+
+/-- a `Duration` (ns) in the model's unit, whole µs rounded **up** (so that `ceilMs (ceilUs ns)` is the timer's
+rounding of the real value, and `ceilUs durMaxNs = durMaxUs`) -/
+def ceilUs (ns : Nat) : Nat := (ns + 999) / 1000
+
+/-- the delay slept before retry `k + 1` when the interval function answered `ch` (ns; `none`: a deterministic
+policy, not observed): the answer in µs, clamped into the policy's envelope -/
+def pick (cfg : Cfg) (k : Nat) : Option Nat → Nat
+  | none => cfg.backoff k
+  | some ns => cfg.backoff k + min (ceilUs ns - cfg.backoff k) (cfg.spread k)
+
+/-- the observed answer lies inside the envelope -/
+def okChoice (cfg : Cfg) (k : Nat) : Option Nat → Bool
+  | none => true
+  | some ns => decide (cfg.backoff k ≤ ceilUs ns) && decide (ceilUs ns ≤ cfg.backoff k + cfg.spread k)
+
+/-- the error a failed readiness poll of the scripted inner service carries (`IErr { kind: 9, v: 0 }`) -/
+def readyErr : Res := .inner 9 0
+
+/-- the inner service's answer to the readiness poll before a retry: every pending answer is followed at once by
+another poll (the future wakes itself), so the first answer that is not 'p' decides; `(ready?, rest of the script)` -/
+def readyOf : List Char → Bool × List Char
+  | [] => (true, [])
+  | ch :: rest => if ch = 'p' then readyOf rest else (ch != 'e', rest)
+
 /-- ghost record of one attempt -/
 structure Att where
   k     : Nat            -- serial of the inner call
@@ -129,6 +178,7 @@ structure Att where
   due   : Nat            -- instant the inner future becomes ready
   out   : Out            -- its scripted outcome
   seen  : Option Nat     -- instant the call future observed the outcome
+  wait  : Nat := 0       -- the delay (µs) slept before this attempt: what the interval function answered (0: first attempt)
 deriving DecidableEq, Repr
 
 structure Caller where
@@ -141,6 +191,8 @@ structure Caller where
   sleeps  : List Nat := []      -- ghost, newest first: the delays handed to `sleep`, in µs
   grants  : List Bool := []     -- ghost, newest first: answers of `try_withdraw`
   result  : Option Res := none
+  choices : List Nat := []      -- the answers (ns) the interval function gives during the poll in progress, in order
+  rdy     : List Char := []     -- the readiness script as the poll in progress sees it (copied from / back to `State.rdy`)
 deriving Repr
 
 /-- the response / error handed to the caller for outcome `o` of inner call `k` -/
@@ -166,7 +218,7 @@ def startCall (now serial : Nat) (b : BState) (c : Nat) (cl : Caller) (idx : Nat
   { cl := { cl with plan := cl.plan.tail, attempt := idx,
                     phase := .calling serial (now + st.lat) st.out,
                     atts := { k := serial, idx := idx, start := now, due := now + st.lat,
-                              out := st.out, seen := none } :: cl.atts },
+                              out := st.out, seen := none, wait := cl.sleeps.headD 0 } :: cl.atts },
     b := b, serial := serial + 1, evs := [.innerCall c serial] }
 
 def seenNow (now : Nat) : List Att → List Att
@@ -214,10 +266,26 @@ def observe (cfg : Cfg) (now serial : Nat) (b : BState) (c : Nat) (cl : Caller) 
         b := v.b, serial := serial, deps := v.deps,
         evs := [.innerDone c k o, .result c (resOf k o)] }
   | .retry =>
-      { cl := { cl with phase := .sleeping (now + ceilMs (cfg.backoff cl.attempt)), atts := seenNow now cl.atts,
-                        grants := v.grants ++ cl.grants, sleeps := cfg.backoff cl.attempt :: cl.sleeps },
+      let d := pick cfg cl.attempt cl.choices.head?
+      { cl := { cl with phase := .sleeping (now + ceilMs d), atts := seenNow now cl.atts,
+                        grants := v.grants ++ cl.grants, sleeps := d :: cl.sleeps, choices := cl.choices.tail },
         b := v.b, serial := serial, deps := v.deps,
-        evs := [.innerDone c k o] }
+        evs := .innerDone c k o :: (if okChoice cfg cl.attempt cl.choices.head? then [] else [.raw "choice-not-allowed"]) }
+
+/-- The service instance a request uses (the same for all its attempts) answers `Pending` to `poll_ready` until `recov` ms
+have passed since the call it last served (a connection being re-established; no answer of the script is consumed
+meanwhile, the pending poll arms a timer): has the instance recovered from its newest attempt (head of `atts`)? -/
+def recovered (cfg : Cfg) (atts : List Att) (now : Nat) : Bool :=
+  match atts with
+  | [] => true
+  | a :: _ => decide (a.start + cfg.recov ≤ now)
+
+/-- the back-off has elapsed: the readiness poll, then the next attempt — or the readiness error as the result -/
+def retryCall (now serial : Nat) (b : BState) (c : Nat) (cl : Caller) : Outp :=
+  if (readyOf cl.rdy).1 then startCall now serial b c { cl with rdy := (readyOf cl.rdy).2 } (cl.attempt + 1)
+  else
+    { cl := { cl with rdy := (readyOf cl.rdy).2, phase := .unready, result := some readyErr },
+      b := b, serial := serial, evs := [.result c readyErr] }
 
 /-- one loop iteration of caller `c`, `none` when the future has to wait (or is finished) -/
 def tickC (cfg : Cfg) (now serial : Nat) (b : BState) (c : Nat) (cl : Caller) : Option Outp :=
@@ -226,8 +294,9 @@ def tickC (cfg : Cfg) (now serial : Nat) (b : BState) (c : Nat) (cl : Caller) : 
   | .calling k due o =>
       if due ≤ now ∧ o ≠ .never then some (observe cfg now serial b c cl k o) else none
   | .sleeping u =>
-      if u ≤ now then some (startCall now serial b c cl (cl.attempt + 1)) else none
+      if u ≤ now ∧ recovered cfg cl.atts now = true then some (retryCall now serial b c cl) else none
   | .done => none
+  | .unready => none
   | .dropped => none
 
 /-- one poll: iterate until the future has to wait -/
@@ -250,10 +319,11 @@ structure State where
   deposits : Nat := 0           -- ghost: number of `deposit` calls
   others   : Nat := 0           -- ghost: withdrawals granted to other users of the shared budget
   log      : List Ev := []
+  rdy      : List Char := []    -- script of the inner service's answers to the readiness polls between attempts
 
 inductive Op
   | arrive (c : Nat) (ma : Option Nat) (plan : List Step)
-  | poll (c : Nat)
+  | poll (c : Nat) (ds : List Nat)     -- `ds`: what the interval function answers during this poll (ns), in order
   | drop (c : Nat)
   | adv (ms : Nat)
   | probeBalance
@@ -273,12 +343,12 @@ def emit (s : State) (evs : List Ev) : State := { s with log := s.log ++ evs }
 /-- an upper bound on the loop iterations of one poll: every attempt is one call and one sleep -/
 def fuel (cl : Caller) : Nat := 2 * cl.maxA + 4
 
-def pollS (cfg : Cfg) (s : State) (c : Nat) : State :=
+def pollS (cfg : Cfg) (s : State) (c : Nat) (ds : List Nat) : State :=
   match lookup s.callers c with
   | none => s
   | some cl =>
-      let o := loopC cfg s.now c (fuel cl) s.serial s.b cl
-      { s with callers := modify s.callers c o.cl, b := o.b, serial := o.serial,
+      let o := loopC cfg s.now c (fuel cl) s.serial s.b { cl with choices := ds, rdy := s.rdy }
+      { s with callers := modify s.callers c o.cl, b := o.b, serial := o.serial, rdy := o.cl.rdy,
                deposits := s.deposits + o.deps, log := s.log ++ o.evs }
 
 /-- dropping the call future drops the inner future, if one exists -/
@@ -288,6 +358,7 @@ def dropS (s : State) (c : Nat) : State :=
   | some cl =>
       match cl.phase with
       | .done => s
+      | .unready => s
       | .dropped => s
       | .calling k _ _ =>
           emit { s with callers := modify s.callers c { cl with phase := .dropped } } [.innerDrop c k]
@@ -306,7 +377,7 @@ def stepS (cfg : Cfg) (s : State) (op : Op) : State :=
   match op with
   | .adv ms => { s with now := s.now + ms }
   | .arrive c ma plan => arriveS cfg s c ma plan
-  | .poll c => pollS cfg s c
+  | .poll c ds => pollS cfg s c ds
   | .drop c => dropS s c
   | .probeBalance =>
       match cfg.budget with
@@ -326,7 +397,7 @@ def stepS (cfg : Cfg) (s : State) (op : Op) : State :=
       | none => emit s [noop]
   | .invalid => emit s [noop]
 
-def init (cfg : Cfg) : State := { b := cfg.b0 }
+def init (cfg : Cfg) : State := { b := cfg.b0, rdy := cfg.rdy }
 def run (cfg : Cfg) (ops : List Op) : State := ops.foldl (stepS cfg) (init cfg)
 
 /-! ## line protocol -/
@@ -349,13 +420,83 @@ def backoffOf (us : Bool) (s : String) : Nat → Nat :=
   | [_, t] => let t := ((t.splitOn ",").filter (· ≠ "")).map (durOf us); fun k => t.getD k 0
   | _ => fun _ => 0
 
-/-- `bo=fixed:10 | exp:5 | fn:1,2,3 [unit=us]`, values in ms (µs with `unit=us`) or `max`; absent: the
-builder's default, exponential from 100 ms. The result is in µs. -/
-def parseBackoff (kv : Kv) : Nat → Nat :=
+/-! ### interval-function objects handed to `.backoff(..)`
+
+`FixedInterval::new(d)`, `ExponentialBackoff::new(d).multiplier(p/q).max_interval(cap)`,
+`ExponentialRandomBackoff::new(d, pct/100).multiplier(p/q).max_interval(cap)`. The last two are float-computed (and the
+last is random): the value is an observed choice, the model has the envelope around the exact-arithmetic capped
+exponential (the envelope of `TR.Model.Backoff`, C14: relative 2^-40 plus 1 ns; jitter: within the randomization
+factor of the capped value, never above `Duration::MAX`). -/
+
+/-- one configured duration in ns: a number of ms (µs with `unit=us`), or `max` = `Duration::MAX` -/
+def durNs (us : Bool) (s : String) : Nat :=
+  if s = "max" then durMaxNs else (s.toNat?.getD 0) * (if us then 1000 else 1000000)
+
+/-- relative `2^-40` plus one nanosecond -/
+def tolNs (x : Nat) : Nat := x / 2 ^ 40 + 1
+
+/-- `capped_exponential` in exact arithmetic (ns): `⌊initial · (p/q)^k⌋`, saturating at the cap -/
+def idealNs (init p q cap k : Nat) : Nat := min (init * p ^ k / q ^ k) cap
+
+/-- an `ExponentialBackoff` (`pct = none`) or `ExponentialRandomBackoff` (`pct` = randomization factor in %) as built -/
+structure Ivl where
+  init : Nat                  -- ns
+  p    : Nat := 2             -- multiplier p/q
+  q    : Nat := 1
+  cap  : Option Nat := none   -- `max_interval` (ns)
+  pct  : Option Nat := none
+
+def Ivl.capNs (i : Ivl) : Nat := i.cap.getD durMaxNs
+def Ivl.ideal (i : Ivl) (k : Nat) : Nat := idealNs i.init i.p i.q i.capNs k
+
+/-- the least value (ns) the object may return for retry `k` -/
+def Ivl.loNs (i : Ivl) (k : Nat) : Nat :=
+  match i.pct with
+  | none => i.ideal k - tolNs (i.ideal k)
+  | some pct => i.ideal k * (100 - min pct 100) / 100 - (tolNs (i.ideal k) + 1)
+
+/-- the largest -/
+def Ivl.hiNs (i : Ivl) (k : Nat) : Nat :=
+  match i.pct with
+  | none => min (i.ideal k + tolNs (i.ideal k)) i.capNs
+  | some pct => min (i.ideal k * (100 + min pct 100) / 100 + tolNs (2 * i.ideal k) + 1) durMaxNs
+
+/-- the envelope in the model's unit (µs, rounded up as the observed value is) -/
+def Ivl.lo (i : Ivl) (k : Nat) : Nat := ceilUs (i.loNs k)
+def Ivl.sp (i : Ivl) (k : Nat) : Nat := ceilUs (i.hiNs k) - ceilUs (i.loNs k)
+
+/-- a field of `<d>_<pct>_<p>_<q>_<cap>`: `-` (or absent) = the setter is not called -/
+def fieldOf (fs : List String) (i : Nat) : Option String :=
+  match fs[i]? with
+  | some "-" => none
+  | some "" => none
+  | x => x
+
+/-- `<d>_<p>_<q>_<cap>` (`pct?` = false) or `<d>_<pct>_<p>_<q>_<cap>` -/
+def ivlOf (us : Bool) (rand : Bool) (arg : String) : Ivl :=
+  let fs := arg.splitOn "_"
+  let o := if rand then 1 else 0
+  let mult := (fieldOf fs (1 + o)).map fun p => (p.toNat?.getD 0, ((fieldOf fs (2 + o)).bind (·.toNat?)).getD 1)
+  { init := durNs us (fs.headD "0"),
+    p := (mult.map (·.1)).getD 2, q := (mult.map (·.2)).getD 1,
+    cap := (fieldOf fs (3 + o)).map (durNs us),
+    pct := if rand then some (((fieldOf fs 1).bind (·.toNat?)).getD 50) else none }
+
+/-- every back-off word: the three builder shortcuts / the custom table (exact, `spread` 0), or an interval-function
+object `ifixed:<d>` / `iexp:<d>_<p>_<q>_<cap>` / `rand:<d>_<pct>_<p>_<q>_<cap>` → `(least value, width)` in µs -/
+def intervalOf (us : Bool) (s : String) : (Nat → Nat) × (Nat → Nat) :=
+  match s.splitOn ":" with
+  | ["ifixed", d] => let d := durOf us d; (fun _ => d, fun _ => 0)
+  | ["iexp", a] => let i := ivlOf us false a; (i.lo, i.sp)
+  | ["rand", a] => let i := ivlOf us true a; (i.lo, i.sp)
+  | _ => (backoffOf us s, fun _ => 0)
+
+/-- `bo=… [unit=us]`; absent: the builder's default, exponential from 100 ms. The result is in µs. -/
+def parseBackoff (kv : Kv) : (Nat → Nat) × (Nat → Nat) :=
   let us := kv.get "unit" == some "us"
   match kv.get "bo" with
-  | none => fun k => 100000 * 2 ^ k
-  | some s => backoffOf us s
+  | none => (fun k => 100000 * 2 ^ k, fun _ => 0)
+  | some s => intervalOf us s
 
 /-- kind k is retried iff bit k of the mask is set -/
 def predOf (m : Nat) : Nat → Bool := fun k => k < 64 && (m / 2 ^ k) % 2 == 1
@@ -366,26 +507,38 @@ def parsePred (kv : Kv) : Nat → Bool :=
   | none => fun _ => true
   | some m => predOf m
 
-/-- `bucket:<max>:<initial> | aimd:<min>:<max>:<dep>:<wd>:<q>`; (budget, initial state, is-AIMD) -/
+/-- field `i` of a budget word: a number; `-` = the builder's setter is not called (its default `dflt`); absent: `old` -/
+def bfield (rest : List String) (i dflt old : Nat) : Nat :=
+  match rest[i]? with
+  | some "-" => dflt
+  | some x => x.toNat?.getD 0
+  | none => old
+
+/-- `bucket:<max>:<initial>[:<tokens per second>] | aimd:<min>:<max>:<dep>:<wd>:<q>` (`AimdBudget::new`) |
+`aimdb:<min>:<max>:<dep>:<wd>:<q>` (`RetryBudgetBuilder::new().aimd()…build()`, a field `-` = setter not called: 10, 1000,
+1, 1, factor 0.5; the result is an `Arc<dyn RetryBudget>`: no `current_max()`); (budget, initial state, `probe limit` answers) -/
 def budgetOf (s : String) : Option (Budget × BState × Bool) :=
   match s.splitOn ":" with
   | "bucket" :: rest =>
-      let p := rest.map fun x => x.toNat?.getD 0
-      let m := p.getD 0 1
+      let m := bfield rest 0 100 1
       -- `TokenBucketBudget::new` clamps the initial balance to the burst capacity
-      some (bucket m, ⟨min (p.getD 1 m) m, m⟩, false)
+      some (bucket m, ⟨min (bfield rest 1 m m) m, m⟩, false)
   | "aimd" :: rest =>
       let p := rest.map fun x => x.toNat?.getD 0
       let mn := p.getD 0 1
       let mx := p.getD 1 1
       some (aimd mn mx (p.getD 2 1) (p.getD 3 1) (p.getD 4 2), ⟨mx, mx⟩, true)
+  | "aimdb" :: rest =>
+      let mx := bfield rest 1 1000 1000
+      some (aimd (bfield rest 0 10 10) mx (bfield rest 2 1 1) (bfield rest 3 1 1) (bfield rest 4 2 2), ⟨mx, mx⟩, false)
   | _ => none
 
 /-- all characters are decimal digits, and there is one -/
 def digits? (s : String) : Option Nat := if s.all Char.isDigit then s.toNat? else none
 
-/-- one item of `chain=`: `m<n>` / `f<n>` / `bf<d>` / `be<d>` / `bt<d>/<d>/…` / `p<mask>` / `ubucket:…` / `uaimd:…`;
-anything else is skipped (as the harness does) -/
+/-- one item of `chain=`: `m<n>` / `f<n>` / `bf<d>` / `be<d>` / `bt<d>/<d>/…` / `bi<d>` / `bx<d>_…` / `br<d>_<pct>_…` /
+`p<mask>` / `ubucket:…` / `uaimd:…` / `uaimdb:…`; anything else is skipped (as the harness does; `n<name>` = `.name(..)`
+is applied by the harness and has no effect the model could see) -/
 def parseSetter (us : Bool) (w : String) : Option Setter :=
   let a1 := (w.drop 1).toString
   let a2 := (w.drop 2).toString
@@ -395,30 +548,49 @@ def parseSetter (us : Bool) (w : String) : Option Setter :=
   else if w.startsWith "bf" then some (.backoff (backoffOf us ("fixed:" ++ a2)))
   else if w.startsWith "be" then some (.backoff (backoffOf us ("exp:" ++ a2)))
   else if w.startsWith "bt" then some (.backoff (backoffOf us ("fn:" ++ a2.replace "/" ",")))
+  else if w.startsWith "bi" then let iv := intervalOf us ("ifixed:" ++ a2); some (.interval iv.1 iv.2)
+  else if w.startsWith "bx" then let iv := intervalOf us ("iexp:" ++ a2); some (.interval iv.1 iv.2)
+  else if w.startsWith "br" then let iv := intervalOf us ("rand:" ++ a2); some (.interval iv.1 iv.2)
   else if w.startsWith "u" then (budgetOf a1).map fun (bu, b0, a) => .budget bu b0 a
   else none
 
 /-- header word `chain=s1,s2,…`: the builder chain, left to right -/
 def parseChain (us : Bool) (s : String) : List Setter := (s.splitOn ",").filterMap (parseSetter us)
 
+/-- the presets of `RetryLayer`: each is `builder()` followed by two setters (layer.rs) -/
+def presetChain (via : String) : List Setter :=
+  if via = "exponential_backoff" then [.maxA 3, .backoff (backoffOf false "exp:100")]
+  else if via = "aggressive" then [.maxA 5, .backoff (backoffOf false "exp:50")]
+  else if via = "conservative" then [.maxA 2, .backoff (backoffOf false "exp:500")]
+  else []
+
 def parseCfg (kv : Kv) : Cfg × Bool :=
+  let rdy := (kv.str "ready" "").toList
+  let rec_ := kv.nat "rec" 0
   match kv.get "chain" with
-  | some ch => let cfg := build (parseChain (kv.get "unit" == some "us") ch); (cfg, cfg.aimd)
+  | some ch =>
+      let cfg := build (presetChain (kv.str "via" "") ++ parseChain (kv.get "unit" == some "us") ch)
+      ({ cfg with rdy := rdy, recov := rec_ }, cfg.aimd)
   | none =>
+    let bo := parseBackoff kv
     match (kv.get "budget").bind budgetOf with
     | some (bu, b0, isAimd) =>
         ({ max := kv.nat "max" 3, dyn := kv.nat "dyn" 0 == 1, pred := parsePred kv,
-           backoff := parseBackoff kv, budget := some bu, b0 := b0, aimd := isAimd }, isAimd)
+           backoff := bo.1, spread := bo.2, budget := some bu, b0 := b0, aimd := isAimd, rdy := rdy, recov := rec_ }, isAimd)
     | none =>
         ({ max := kv.nat "max" 3, dyn := kv.nat "dyn" 0 == 1, pred := parsePred kv,
-           backoff := parseBackoff kv }, false)
+           backoff := bo.1, spread := bo.2, rdy := rdy, recov := rec_ }, false)
+
+/-- the observed answers of the interval function on a `poll` line: `@d=<ns>` words, in order -/
+def choicesOf (ws : List String) : List Nat :=
+  ws.filterMap fun w => if w.startsWith "@d=" then (w.drop 3).toString.toNat? else none
 
 def parseOp (isAimd : Bool) (ws : List String) : Option Op :=
   match ws with
   | "arrive" :: c :: rest =>
       let kv := parseKv rest
       some (.arrive (c.toNat?.getD 0) (kv.optNat "ma") (planOf kv))
-  | "poll" :: c :: _ => some (.poll (c.toNat?.getD 0))
+  | "poll" :: c :: rest => some (.poll (c.toNat?.getD 0) (choicesOf rest))
   | "drop" :: c :: _ => some (.drop (c.toNat?.getD 0))
   | "adv" :: ms :: _ => some (.adv (ms.toNat?.getD 0))
   | "probe" :: "balance" :: _ => some .probeBalance
